@@ -48,7 +48,7 @@ def laws():
 
     def law(name, shapes, fns, backend="auto"):
         def deco(f):
-            out.append(Law(name, shapes, f, functions=[F + x for x in fns], backend=backend))
+            out.append(Law(name, shapes, f, functions=[F + x for x in fns], backend=backend, degenerate=True))
             return f
         return deco
 
